@@ -13,11 +13,22 @@ Rec == Log[vL]
 TimerOf2(t) == [c |-> t.c, s |-> t.s, m |-> t.m, p |-> t.p, u |-> t.u, mi |-> t.mi, sc |-> t.sc]
 IcuOf(i) == [req |-> i.req, en |-> i.en, ven |-> i.ven, vlo |-> i.vlo, vhi |-> i.vhi, vctx |-> i.vctx]
 
+MiuOf(m) == [base |-> m.base, z |-> m.z, pm |-> m.pm, xp |-> m.xp, yp |-> m.yp, xs |-> <<m.xs[1], m.xs[2]>>, ys |-> <<m.ys[1], m.ys[2]>>]
 CoreObs(rec, mem) == [r |-> Unpack(rec.r), mem |-> mem, io |-> EmptyIo, acc |-> <<>>, out |-> "ok", idle |-> rec.idle = 1,
                       lat |-> <<rec.lat[1], rec.lat[2], rec.lat[3], rec.lat[4]>>, vaddr |-> rec.lat[5] * 65536 + rec.lat[6],
-                      vctx |-> rec.lat[7], miu |-> [base |-> 32768, z |-> 0]]
+                      vctx |-> rec.lat[7], miu |-> MiuOf(rec.miu)]
+\* audio port / mailbox block as logged -> as modelled (functions over 0..2 built eagerly)
+BtOf2(b) == [q |-> b.q, tm |-> b.tm, pd |-> b.pd, en |-> b.en, em |-> b.em, fu |-> b.fu, cc |-> b.cc]
+F3(x) == (0 :> x[1]) @@ (1 :> x[2]) @@ (2 :> x[3])
+ApOf(a) == [rdy |-> F3(a.rdy), dat |-> F3(a.dat), dis |-> F3(a.dis), sem |-> a.sem, msk |-> a.msk, sig |-> a.sig]
+T3(f) == <<f[0], f[1], f[2]>>
+ApObs(s) == [rdy |-> T3(s.rdy), dat |-> T3(s.dat), dis |-> T3(s.dis), sem |-> s.sem, msk |-> s.msk, sig |-> s.sig]
+ApLog(a) == [rdy |-> <<a.rdy[1], a.rdy[2], a.rdy[3]>>, dat |-> <<a.dat[1], a.dat[2], a.dat[3]>>, dis |-> <<a.dis[1], a.dis[2], a.dis[3]>>,
+             sem |-> a.sem, msk |-> a.msk, sig |-> a.sig]
+EvLog(rec) == [i \in 1 .. Len(rec.ev) |-> <<rec.ev[i][1], rec.ev[i][2], rec.ev[i][3]>>]
 Fresh(rec) == [c |-> CoreObs(rec, [ph0 \in {} |-> 0]), tm |-> <<TimerOf2(rec.tm[1]), TimerOf2(rec.tm[2])>>,
-               icu |-> IcuOf(rec.icu), cells |-> [o \in {} |-> 0], ev |-> <<>>]
+               icu |-> IcuOf(rec.icu), bt |-> <<BtOf2(rec.bt[1]), BtOf2(rec.bt[2])>>,
+               ap |-> [fc |-> ApOf(rec.ap[1]), fd |-> ApOf(rec.ap[2])], cells |-> [o \in {} |-> 0], ev |-> <<>>]
 
 \* a fresh, reset instance must be in the specification's reset state (C17, as far as this observation goes;
 \* the uninitialised ar/arp shadow banks are excluded here and examined by the C17 check itself)
@@ -25,6 +36,9 @@ FreshIsReset(rec) ==
     LET r == Unpack(rec.r) IN
     /\ [r EXCEPT !.sar = ResetRegs.sar, !.sarp = ResetRegs.sarp] = ResetRegs
     /\ TimerOf2(rec.tm[1]) = TM!ResetState /\ TimerOf2(rec.tm[2]) = TM!ResetState
+    /\ [BtOf2(rec.bt[1]) EXCEPT !.pd = 4096] = BT!ResetState /\ [BtOf2(rec.bt[2]) EXCEPT !.pd = 4096] = BT!ResetState
+    /\ MiuOf(rec.miu) = MiuReset
+    /\ ApOf(rec.ap[1]) = ApFresh /\ ApOf(rec.ap[2]) = ApFresh
     /\ rec.icu.req = 0 /\ rec.lat[1] = 0 /\ rec.lat[2] = 0 /\ rec.lat[3] = 0 /\ rec.lat[4] = 0
 
 Written(c) == {c.acc[i][1] : i \in {j \in 1 .. Len(c.acc) : c.acc[j][2] = 1 /\ c.acc[j][1] < MmioBase}}
@@ -38,6 +52,10 @@ ObsMatches(rec) ==
          /\ (IF vY.c.idle THEN 1 ELSE 0) = rec.idle
          /\ vY.tm = <<TimerOf2(rec.tm[1]), TimerOf2(rec.tm[2])>>
          /\ vY.icu = IcuOf(rec.icu)
+         /\ vY.c.miu = MiuOf(rec.miu)
+         /\ vY.bt = <<BtOf2(rec.bt[1]), BtOf2(rec.bt[2])>>
+         /\ ApObs(vY.ap.fc) = ApLog(rec.ap[1]) /\ ApObs(vY.ap.fd) = ApLog(rec.ap[2])
+         /\ vY.ev = EvLog(rec)                      \* every host callback of the slice, in order
          /\ {<<a, MemVal(vY.c, a)>> : a \in vWr} = {<<rec.wr[i][1], rec.wr[i][2]>> : i \in 1 .. Len(rec.wr)}
 
 \* printed when an observation does not match (the step is then disabled): what differs
@@ -48,6 +66,10 @@ ObsDiff(rec) ==
      lat |-> <<vY.c.lat, rec.lat>>, idle |-> <<vY.c.idle, rec.idle>>,
      tm |-> IF vY.tm = <<TimerOf2(rec.tm[1]), TimerOf2(rec.tm[2])>> THEN "same" ELSE <<vY.tm, rec.tm>>,
      icu |-> IF vY.icu = IcuOf(rec.icu) THEN "same" ELSE <<vY.icu.req, rec.icu.req, vY.icu.en, rec.icu.en>>,
+     miu |-> IF vY.c.miu = MiuOf(rec.miu) THEN "same" ELSE <<vY.c.miu, rec.miu>>,
+     bt |-> IF vY.bt = <<BtOf2(rec.bt[1]), BtOf2(rec.bt[2])>> THEN "same" ELSE <<vY.bt, rec.bt>>,
+     ap |-> IF ApObs(vY.ap.fc) = ApLog(rec.ap[1]) /\ ApObs(vY.ap.fd) = ApLog(rec.ap[2]) THEN "same" ELSE <<vY.ap, rec.ap>>,
+     ev |-> IF vY.ev = EvLog(rec) THEN "same" ELSE <<vY.ev, rec.ev>>,
      wr |-> <<{<<a, MemVal(vY.c, a)>> : a \in vWr} \ {<<rec.wr[i][1], rec.wr[i][2]>> : i \in 1 .. Len(rec.wr)},
               {<<rec.wr[i][1], rec.wr[i][2]>> : i \in 1 .. Len(rec.wr)} \ {<<a, MemVal(vY.c, a)>> : a \in vWr}>>]
 
@@ -61,7 +83,7 @@ TLoad == /\ vPh = "idle" /\ IsEv("Load")
          /\ vL' = vL + 1 /\ TLCSet(1, vL) /\ UNCHANGED <<vK, vPh, vWr>>
 \* Teakra::Run(n): idle := false, then n cycles
 TBegin == /\ vPh = "idle" /\ IsEv("Run")
-          /\ vPh' = "run" /\ vK' = Rec.n /\ vWr' = {} /\ vY' = [vY EXCEPT !.c.idle = FALSE] /\ UNCHANGED vL
+          /\ vPh' = "run" /\ vK' = Rec.n /\ vWr' = {} /\ vY' = [vY EXCEPT !.c.idle = FALSE, !.ev = <<>>] /\ UNCHANGED vL
 \* several cycles per TLC step (bounded recursion): [vY, vWr, vK] after at most Chunk cycles.
 \* (A LET placed directly in an action is re-evaluated by TLC at every use, operator arguments are not:
 \* hence the helper operators instead of LETs.)
@@ -75,15 +97,22 @@ StepApply(t) == vY' = t.fy /\ vWr' = t.fwr /\ vK' = t.fk
 TStep  == /\ vPh = "run" /\ vK > 0 /\ vY.c.out = "ok"
           /\ StepApply(Cycles(vY, vWr, vK, Chunk))
           /\ UNCHANGED <<vL, vPh>>
-TEnd   == /\ vPh = "run" /\ (vK = 0 \/ vY.c.out # "ok")
+\* a host API call between two Run calls: result, callbacks and the complete observation afterwards
+HostApply(rec, h) == /\ (IF h.y.c.out # "ok" \/ h.ret = rec.ret THEN TRUE ELSE (PrintT(<<"MISMATCH", [line |-> vL, ret |-> <<h.ret, rec.ret>>]>>) /\ FALSE))
+                     /\ vY' = h.y /\ vWr' = Written(h.y.c)
+THost == /\ vPh = "idle" /\ IsEv("Host")
+         /\ HostApply(Rec, HostCall([vY EXCEPT !.ev = <<>>, !.c.acc = <<>>], Rec.op, Rec.a, Rec.b))
+         /\ vPh' = "host" /\ UNCHANGED <<vL, vK>>
+TEnd   == /\ (vPh = "host" \/ (vPh = "run" /\ (vK = 0 \/ vY.c.out # "ok")))
           /\ (IF ObsMatches(Rec) THEN TRUE ELSE (PrintT(<<"MISMATCH", ObsDiff(Rec)>>) /\ FALSE))
           /\ vL' = vL + 1 /\ TLCSet(1, vL) /\ vPh' = "idle" /\ UNCHANGED <<vY, vK, vWr>>
 
 TraceInit == /\ vL = 1 /\ vK = 0 /\ vPh = "idle" /\ vWr = {} /\ TLCSet(1, 0)
              /\ vY = [c |-> [r |-> ResetRegs, mem |-> [a \in {} |-> 0], io |-> EmptyIo, acc |-> <<>>, out |-> "ok", idle |-> FALSE,
-                            lat |-> <<0, 0, 0, 0>>, vaddr |-> 0, vctx |-> 0, miu |-> [base |-> 32768, z |-> 0]],
-                     tm |-> <<TM!ResetState, TM!ResetState>>, icu |-> IcuReset, cells |-> [o \in {} |-> 0], ev |-> <<>>]
-TraceNext == TNew \/ TLoad \/ TBegin \/ TStep \/ TEnd
+                            lat |-> <<0, 0, 0, 0>>, vaddr |-> 0, vctx |-> 0, miu |-> MiuReset],
+                     tm |-> <<TM!ResetState, TM!ResetState>>, icu |-> IcuReset,
+                     bt |-> <<BT!ResetState, BT!ResetState>>, ap |-> ApReset, cells |-> [o \in {} |-> 0], ev |-> <<>>]
+TraceNext == TNew \/ TLoad \/ TBegin \/ TStep \/ THost \/ TEnd
 TraceSpec == TraceInit /\ [][TraceNext]_tvars
 
 TraceAccepted == /\ PrintT(<<"TRACE_MATCHED", TLCGet(1), Len(Log)>>)
